@@ -25,6 +25,18 @@ package config
 // to lower values, making it a good compromise for precise results.
 const StableRoundLimit = 5
 
+// MaxAssertionTreeSize is the limit on the total size of the assertion trees (the number of tracked
+// expressions, consume triggers and full triggers, see AssertionNode.Size) that the backpropagation
+// algorithm keeps for the CFG blocks of a single function. A function is skipped, exactly like a
+// function with too many CFG blocks, as soon as its trees outgrow this limit. The trees of ordinary code
+// stay far below it: the largest total among the functions of the standard library is about 67,000,
+// apart from one outlier of about 240,000, the function `value` of package context. That outlier has
+// the shape the limit exists for: every path through a region of the function replaces a tracked
+// pointer by a different field of it (`switch ... { case ...: n = n.left; case ...: n = n.right }`), so
+// the tree multiplies its width by the number of the paths each time the region is crossed (in every
+// round if it is a loop body), and time and memory grow exponentially although the function is small.
+const MaxAssertionTreeSize = 1_000_000
+
 // InternalPanicPrefix identifies diagnostics emitted when NilAway recovers from an internal panic.
 const InternalPanicPrefix = "INTERNAL PANIC"
 
